@@ -58,6 +58,12 @@ CLAIMED = {
                 note="virtual time (exact); FIFO pongs; same-instant events may be processed in either order; finding F12 (false timeouts when I does not divide T) is a known design-level finding",
                 ref="DESIGN.md section 4 (C16)"),
 }
+CLAIMED["C10"] = dict(CLAIMED["C10"],
+    technique=CLAIMED["C10"]["technique"] + "; plus the WebSocket adapter leg: TLA+ contract of penguin-mux/src/ws.rs (WsAdapter.tla), TLC-enumerated scripts against a hand-written RFC 6455 peer, every line validated by TLC",
+    text=CLAIMED["C10"]["text"] + " C10 adds the adapter leg: the simulator implements the WebSocket trait itself, so `impl WebSocket for tokio_tungstenite::WebSocketStream` and the "
+         "message conversions of penguin-mux/src/ws.rs are specified separately (spec/WsAdapter.tla: delivery without loss, duplication or invention, Text as Binary, Ping/Pong/Close mapping, "
+         "end of stream after Close, errors surfacing, one message per send, close frame behind everything sent); TLC checks the contract's laws, enumerates all scripts up to 3 (quick) / 4 "
+         "(thorough) steps over boundary payload lengths, fragmentation, EOF and I/O errors, the real adapter is driven through the trait in both roles, and TLC validates every logged line.")
 
 checks = []
 for p in props:
